@@ -29,7 +29,7 @@ def strip_c_comments(s):
     return re.sub(r"//[^\n]*", "", s)
 
 
-def func_body(src, name):
+def func_body(src, name, allow_if=False):
     m = re.search(r"\bvoid\s+%s\s*\(([^)]*)\)\s*\{" % re.escape(name), src)
     if not m:
         raise TranslateError("function %s not found in algebra.c" % name)
@@ -39,13 +39,13 @@ def func_body(src, name):
             raise TranslateError("unbalanced braces in %s" % name)
         depth += {"{": 1, "}": -1}.get(src[i], 0)
         i += 1
-    return m.group(1), unroll(src[m.end():i - 1], name)
+    return m.group(1), unroll(src[m.end():i - 1], name, allow_if)
 
 
 FOR4 = re.compile(r"for\s*\(\s*int\s+(\w+)\s*=\s*0\s*;\s*(\w+)\s*<\s*4\s*;\s*(\w+)\+\+\s*\)\s*\{([^{}]*)\}")
 
 
-def unroll(body, name):
+def unroll(body, name, allow_if=False):
     def rep(m):
         v = m.group(1)
         if m.group(2) != v or m.group(3) != v:
@@ -55,7 +55,13 @@ def unroll(body, name):
             raise TranslateError("%s: loop variable used outside an index" % name)
         return "".join(re.sub(r"\[\s*%s\s*\]" % v, "[%d]" % k, blk) for k in range(4))
     body = FOR4.sub(rep, body)
-    if re.search(r"\b(for|while|if|goto|switch)\b", body):
+    if allow_if:  # one-armed `if (0 < ibz_cmp(&a, &b)) { straight-line }` -> markers handled by translate
+        body = re.sub(r"\bif\s*\(\s*0\s*<\s*ibz_cmp\s*\(([^;{}()]*(?:\([^;{}()]*\)[^;{}()]*)*)\)\s*\)\s*\{([^{}]*)\}",
+                      lambda m: "IF_GT_BEGIN(%s);%s;IF_END();" % (m.group(1), m.group(2)), body)
+    if allow_if:  # `if (!ibz_is_one(&a)) { straight-line }`
+        body = re.sub(r"\bif\s*\(\s*!\s*ibz_is_one\s*\(([^;{}()]*)\)\s*\)\s*\{([^{}]*)\}",
+                      lambda m: "IF_NE1_BEGIN(%s);%s;IF_END();" % (m.group(1), m.group(2)), body)
+    if re.search(r"\b(for|while|if|else|goto|switch)\b", body):
         raise TranslateError("%s: control flow outside the subset" % name)
     return body
 
@@ -94,10 +100,11 @@ def proj(k, n):
     return ".2" * k + ("" if k == n - 1 else ".1") if n > 1 else ""
 
 
-def translate(src, name, inputs, outputs, out_arg, check_alias=True, done=()):
+def translate(src, name, inputs, outputs, out_arg, check_alias=True, done=(), allow_if=False):
     """inputs: dict operand -> lean variable; outputs: list of operands read at the end"""
-    _, body = func_body(src, name)
+    _, body = func_body(src, name, allow_if)
     env = dict(inputs)
+    branch = []  # [condition, snapshot of env] while inside the one-armed if
     lets, n = [], [0]
     written_out = set()
     outs = (out_arg,) if isinstance(out_arg, str) else tuple(out_arg)
@@ -145,6 +152,32 @@ def translate(src, name, inputs, outputs, out_arg, check_alias=True, done=()):
         f, args = m.group(1), [a for a in re.split(r",(?![^\[]*\])", m.group(2))]
         if f in ("ibz_finalize", "quat_alg_coord_finalize", "quat_alg_elem_finalize"):
             continue
+        if f == "IF_GT_BEGIN":
+            if branch or len(args) != 2:
+                raise TranslateError("%s: nested / malformed if" % name)
+            a, b = rd(args[0]), rd(args[1])
+            branch.append(("%s < %s" % (b, a), dict(env))); continue  # 0 < cmp(a, b)  <=>  b < a
+        if f == "IF_NE1_BEGIN":
+            if branch or len(args) != 1:
+                raise TranslateError("%s: nested / malformed if" % name)
+            branch.append(("¬(%s = 1)" % rd(args[0]), dict(env))); continue
+        if f == "assert":  # debug-only (NDEBUG builds drop it); the divisibilities are hypotheses of o0basis_exact
+            continue
+        if f == "IF_END":
+            cond, snap = branch.pop()
+            for op in list(env):
+                if op not in snap:
+                    raise TranslateError("%s: %s first assigned inside a branch" % (name, op))
+                if env[op] != snap[op]:
+                    n[0] += 1
+                    v = "t%d" % n[0]
+                    lets.append("  let %s : Int := if %s then %s else %s" % (v, cond, env[op], snap[op]))
+                    env[op] = v
+            continue
+        if f == "ibz_content":  # header inline: gcd(v[3], gcd(v[2], gcd(v[0], v[1]))) (dim4 tie H op m.content)
+            c = [rd(o) for o in COORD(norm(args[1]))]
+            g = lambda a, b: "((Int.gcd %s %s : Nat) : Int)" % (a, b)
+            wr(args[0], g(c[3], g(c[2], g(c[0], c[1])))); continue
         if f == "quat_alg_elem_init":
             x = norm(args[0])
             wr("%s->denom" % x, "1")
@@ -280,11 +313,14 @@ def generate(repo, outdir):
         ("quat_alg_scalar", {"numerator": "num", "denominator": "den"}, ELEM("elem"), "elem", "num den", T5, True),
         ("quat_alg_elem_copy_ibz", {"denom": "d", **{"coord%d" % i: "c%d_" % i for i in range(4)}}, ELEM("elem"), "elem",
          "d c0_ c1_ c2_ c3_", T5, True),
+        ("quat_alg_normalize", elem("x"), ELEM("x"), "x", "xd x0 x1 x2 x3", T5, True),
+        ("from_1ijk_to_O0basis", elem("el"), COORD("vec"), "vec", "eld el0 el1 el2 el3", T4, True),
         ("quat_alg_elem_mul_by_scalar", {"scalar": "s", **elem("elem")}, ELEM("res"), "res",
          "s elemd elem0 elem1 elem2 elem3", T5, True),
     ]
     for name, inputs, outputs, oa, params, ty, chk in jobs:
-        lets, res = translate(src, name, inputs, outputs, oa, check_alias=chk, done=tuple(done))
+        lets, res = translate(src, name, inputs, outputs, oa, check_alias=chk, done=tuple(done),
+                              allow_if=(name in ("quat_alg_normalize", "from_1ijk_to_O0basis")))
         out += ["/-- `%s`: %s -/" % (name, ", ".join(outputs)),
                 "def %s (%s : Int) : %s :=" % (name, params, ty)] + lets + ["  (%s)" % ", ".join(res), ""]
         done.append(name)
